@@ -218,3 +218,30 @@ MUTANTS += [
 		ofcb->rs_cb = NULL;
 	}''', expect=0),
 ]
+
+SPARSE = 'src/lib_common/linear_binary_codes_utils/binary_matrix/of_matrix_sparse.c'
+DENSE = 'src/lib_common/linear_binary_codes_utils/binary_matrix/of_matrix_dense.c'
+DENSEH = 'src/lib_common/linear_binary_codes_utils/binary_matrix/of_matrix_dense.h'
+HW = 'src/lib_common/linear_binary_codes_utils/binary_matrix/of_hamming_weight.c'
+MLTOOL = 'src/lib_common/linear_binary_codes_utils/ml_decoding/of_ml_tool.c'
+MUTANTS += [
+    # ---- C17 / C18
+    REV('revert-sparse-clear-freelist', 'C17', 'cb2c12f', 'R-FREELIST'),
+    REV('revert-dense-copyrows', 'C18', 'f1a650c', 'R-IDX-GUARD'),
+    REV('revert-hweight-naive', 'C18', 'c8d70a2', 'R-BITLOOP'),
+    M('sparse-insert-no-backlink', 'C17', SPARSE, '	ne->left = re->left;\n	ne->right = re;\n	ne->left->right = ne;\n	ne->right->left = ne;\n\n	/* Insert new entry into column. */\n\n#ifndef SPARSE_MATRIX_OPT_FOR_LDPC_STAIRCASE\n	/* If we find an existing entry here,\n	the matrix must be garbled',
+      '	ne->left = re->left;\n	ne->right = re;\n	ne->left->right = ne;\n\n	/* Insert new entry into column. */\n\n#ifndef SPARSE_MATRIX_OPT_FOR_LDPC_STAIRCASE\n	/* If we find an existing entry here,\n	the matrix must be garbled', 'R-DLINK'),
+    M('sparse-delete-no-col-unlink', 'C17', SPARSE, '	e->up->down = e->down;\n	e->down->up = e->up;\n#else	\n	ce = & (m->cols[of_mod2sparse_col(e)]);\n	for (; ce->down != e; ce = ce->down);	/* find the entry before the one to delete */\n	ce->down = e->down;\n#endif\n\n	e->left->right = e->right;\n	e->right->left = e->left;\n\n	e->left = m->next_free;\n	m->next_free = e;\n	OF_EXIT_FUNCTION\n}\n\n\nvoid of_mod2sparse_delete_opt',
+      '	e->up->down = e->down;\n#else	\n	ce = & (m->cols[of_mod2sparse_col(e)]);\n	for (; ce->down != e; ce = ce->down);	/* find the entry before the one to delete */\n	ce->down = e->down;\n#endif\n\n	e->left->right = e->right;\n	e->right->left = e->left;\n\n	e->left = m->next_free;\n	m->next_free = e;\n	OF_EXIT_FUNCTION\n}\n\n\nvoid of_mod2sparse_delete_opt', 'R-DLINK'),
+    M('sparse-find-le', 'C17', SPARSE, '	if (row >= of_mod2sparse_rows (m) || col >= of_mod2sparse_cols (m))\n	{\n		fprintf (stderr, "mod2sparse_find:',
+      '	if (row > of_mod2sparse_rows (m) || col >= of_mod2sparse_cols (m))\n	{\n		fprintf (stderr, "mod2sparse_find:', 'R-IDX-GUARD'),
+    M('sparse-insert-dims-swapped', 'C17', SPARSE, '	if (row >= of_mod2sparse_rows (m) || col >= of_mod2sparse_cols (m))\n	{\n		fprintf (stderr, "mod2sparse_insert:',
+      '	if (row >= of_mod2sparse_cols (m) || col >= of_mod2sparse_rows (m))\n	{\n		fprintf (stderr, "mod2sparse_insert:', 'R-IDX-GUARD', count=2),
+    M('sparse-free-misses-cols', 'C17', SPARSE, '	of_free (m->rows);\n	of_free (m->cols);\n', '	of_free (m->rows);\n', 'R-OWN-FIELD'),
+    M('dense-mask-30', 'C18', DENSEH, '#define of_mod2_wordsize_mask 0x1f', '#define of_mod2_wordsize_mask 0x0f', 'R-WORDGEOM'),
+    M('dense-shift-6', 'C18', DENSEH, '#define of_mod2_wordsize_shift 5', '#define of_mod2_wordsize_shift 6', 'R-WORDGEOM'),
+    M('dense-hw8-entry', 'C18', HW, 'UINT8 of_hw8table[256] = {0, 1, 1, 2, 1, 2, 2, 3,', 'UINT8 of_hw8table[256] = {0, 1, 1, 2, 1, 2, 3, 3,', 'R-HW8'),
+    M('dense-swap-without-constants', 'C18', MLTOOL, '		tmp_buffer = constant_tab[i];\n		constant_tab[i] = constant_tab[j];\n		constant_tab[j] = tmp_buffer;\n', '		tmp_buffer = constant_tab[i];\n', 'R-PAIRSWAP'),
+    M('dense-set-guard-le', 'C18', DENSE, '	if (row >= of_mod2dense_rows (m) || col >= of_mod2dense_cols (m))\n	{\n		OF_PRINT_ERROR(("mod2dense_set: row (%d) or column index (%d) out of bounds',
+      '	if (row > of_mod2dense_rows (m) || col >= of_mod2dense_cols (m))\n	{\n		OF_PRINT_ERROR(("mod2dense_set: row (%d) or column index (%d) out of bounds', 'R-IDX-GUARD'),
+]
